@@ -253,7 +253,7 @@ pub fn g_string_literal() -> BS<Vec<u8>> {
 /// The mixed input generator used by the byte-level properties. The label
 /// says where the bytes came from.
 pub fn g_input(max_len: usize) -> BS<(Vec<u8>, &'static str)> {
-    prop_oneof![
+    let base = prop_oneof![
         3 => g_tokens(24).prop_map(|b| (b, "tokens")),
         3 => g_tokens_spaced(24).prop_map(|b| (b, "tokens-spaced")),
         3 => g_printed(4, 30).prop_map(|(b, _)| (b, "printed")),
@@ -269,8 +269,37 @@ pub fn g_input(max_len: usize) -> BS<(Vec<u8>, &'static str)> {
         b.truncate(max_len);
         (b, l)
     })
-    .boxed()
+    .boxed();
+    // now and then one character that text-processing code likes to treat
+    // specially, at the very start, at the very end or after the first blank
+    (base, any::<u8>())
+        .prop_map(|((mut b, l), d)| {
+            if (d as usize) < 3 * EDGE_CHARS.len() {
+                let c = EDGE_CHARS[d as usize % EDGE_CHARS.len()].as_bytes();
+                match d as usize / EDGE_CHARS.len() {
+                    0 => {
+                        let mut n = c.to_vec();
+                        n.extend_from_slice(&b);
+                        b = n;
+                    }
+                    1 => b.extend_from_slice(c),
+                    _ => {
+                        let at = b.iter().position(|x| *x == b' ').map_or(b.len(), |i| i + 1);
+                        let tail = b.split_off(at);
+                        b.extend_from_slice(c);
+                        b.extend_from_slice(&tail);
+                    }
+                }
+            }
+            (b, l)
+        })
+        .boxed()
 }
+
+/// Byte order mark, no-break and other Unicode spaces, line and paragraph
+/// separators, NEL, zero-width space, a noncharacter, the replacement
+/// character, Ctrl-Z, NUL, a lone CR, a shebang.
+pub const EDGE_CHARS: &[&str] = &["\u{feff}", "\u{a0}", "\u{2028}", "\u{2029}", "\u{85}", "\u{200b}", "\u{3000}", "\u{fffe}", "\u{fffd}", "\u{1a}", "\u{0}", "\r", "#!", "\u{feff}\u{feff}", "\u{1680}", "\u{2003}"];
 
 pub fn g_qopt_index() -> BS<usize> {
     prop_oneof![3 => Just(0usize), 2 => Just(QOpt::elisp().index()), 4 => 0usize..N_QOPT].boxed()
